@@ -21,6 +21,20 @@ pub struct Case {
 
 pub struct C16;
 
+/// Number of bytes the packet of `call` would occupy if every argument were
+/// encoded (used to size buffers for calls that must be refused).
+pub fn wanted_len(call: &EncCall) -> usize {
+    use EncCall::*;
+    10 + match call {
+        ReqRoutingUpdate { entries } => 3 + 4 * entries.len(),
+        ReqVendor { msg, .. } => 4 + msg.len(),
+        TraitControl { header, data, .. } | TraitPci { header, data, .. } | TraitIana { header, data, .. } | TraitSpdm { header, data, .. } => header.as_ref().map(|h| h.len()).unwrap_or(0) + data.len(),
+        RespMsgTypes { types, .. } => 4 + types.len(),
+        RespVendorSupport { vendor_id, .. } => 4 + vendor_id.len(),
+        _ => 24,
+    }
+}
+
 impl Prop for C16 {
     type Case = Case;
     fn id(&self) -> &'static str {
@@ -82,9 +96,11 @@ impl Prop for C16 {
         let refenc = refmodel::ref_encode(call, env.eid_resp);
         let pa = case.poison_a;
         let pb = case.poison_b;
-        let (ea, bufa) = encode_in(env, call, 640, |_| pa);
+        // large enough for whatever the call would need if it were (wrongly) encoded
+        let big = (wanted_len(call) + 64).max(640);
+        let (ea, bufa) = encode_in(env, call, big, |_| pa);
         if let Enc::Panic(m) = &ea {
-            r.fail(format!("C16:{}:panic:{}", kind, sut::panic_kind(m)), format!("encoder panicked with a 640-byte buffer: {}", m));
+            r.fail(format!("C16:{}:panic:{}", kind, sut::panic_kind(m)), format!("encoder panicked with a {}-byte buffer: {}", big, m));
             return r;
         }
         match refenc {
@@ -127,7 +143,7 @@ impl Prop for C16 {
                         return r;
                     }
                 };
-                if len == 0 || len > 640 {
+                if len == 0 || len > big {
                     r.fail(format!("C16:{}:len", kind), format!("impossible length {}", len));
                     return r;
                 }
@@ -163,7 +179,7 @@ impl Prop for C16 {
                                 r.fail(format!("C16:{}:wrote_beyond_len", kind), format!("byte at offset {} beyond the reported length {} was modified (capacity {})", len + i, len, cap));
                             }
                         }
-                        other => r.fail(format!("C16:{}:len_depends_on_buffer", kind), format!("capacity {} gave {:?}, capacity 640 gave Ok({})", cap, other, len)),
+                        other => r.fail(format!("C16:{}:len_depends_on_buffer", kind), format!("capacity {} gave {:?}, large capacity gave Ok({})", cap, other, len)),
                     }
                 }
             }
